@@ -30,7 +30,7 @@ RULE = ("complete enumeration of (1) all inheritance graphs on n named entries w
 WIT = ["inherit_ok", "inherit_missing_parent", "inherit_cycle", "inherit_excluded_key_skipped", "inherit_diamond_or_chain",
        "range_len1", "range_len2", "range_len3plus", "count_group", "two_groups", "rejected_declaration",
        "inherited_range_ignored", "access_subset", "uniform", "const", "normal", "expon", "malformed_spec_rejected",
-       "builtin_class_resolved", "user_class_resolved", "class_error_reported", "legacy_key_equal", "legacy_both_rejected", "class_resolution_sequences"]
+       "builtin_class_resolved", "user_class_resolved", "class_error_reported", "legacy_key_equal", "legacy_both_rejected", "class_resolution_sequences", "inherited_count"]
 
 # ---------------------------------------------------------------------------------------------- 1
 
@@ -144,6 +144,10 @@ def range_cases():
         # a group that inherits from a group declaring a range: the range must not be inherited
         for s0 in [(None, 0, 1), (None, 1, 3), (None, 2, 2)]:
             yield (kind, s0, (None, None, None), None, True)
+        # a group that inherits from an (already expanded) group declaring a count: the count IS inherited
+        # (without a prefix: an inherited prefix would legitimately produce duplicate names)
+        for s0 in [(2, None, None), (3, None, None)]:
+            yield (kind, s0, (None, None, None), None, True)
 
 
 def cnt(sp):
@@ -164,7 +168,8 @@ def range_fn(case, wit):
         if s1:
             cfg["A1"] = grp("a", *s1, None, extends="A0" if inherit else None)
     invalid = (s0[0] is not None and (s0[1] is not None or s0[2] is not None)) or ((s0[1] is None) != (s0[2] is None))
-    r = SequentialRunner(copy.deepcopy(cfg), random.Random(0))
+    given = copy.deepcopy(cfg)
+    r = SequentialRunner(given, random.Random(0))
     try:
         r._setup()
     except Exception as e:  # noqa
@@ -177,8 +182,12 @@ def range_fn(case, wit):
         raise Violation("C18.range_accepts_invalid", "a contradictory count/range declaration was accepted", "%s %s" % (kind, s0))
     ents = r.simulator.markets if kind == "m" else r.simulator.agents
     want = cnt(s0) + (cnt(s1) if s1 else 0)
+    if given != cfg:
+        raise Violation("C18.settings_mutated", "expanding the configuration modified the caller's settings", "%s groups %s %s" % (kind, s0, s1))
     if inherit:
-        want = cnt(s0) + 1  # the child declares nothing itself: one entity, range not inherited
+        # the child declares nothing itself: a range is not inherited (one entity), a count is
+        want = cnt(s0) + (1 if s0[1] is not None else cnt(s0))
+        wit.inc("inherited_count" if s0[1] is None else "inherited_range")
     if len(ents) != want:
         raise Violation("C18.range_count", "a group did not create exactly the declared number of entities",
                         "%s groups %s %s: %d entities, expected %d" % (kind, s0, s1, len(ents), want))
